@@ -324,7 +324,7 @@ class C20(Prop):
                 if rng.random() < 0.25 else {}
             case = {**extra_, 'kind': 'workload', 'cfg': cfg, 'peer': peer, 'callers': callers,
                     'lose_at': rng.choice([None, None, None, 0.3, timeout / 2]),
-                    'horizon': (timeout + 21.0) * (2 + ncall // 10) + 60}
+                    'horizon': (timeout + 21.0) * (2 + ncall) + 60}      # (the limit may fall to 1: the callers are then served one at a time)
             if w >= nw:
                 case = directed[w - nw]
                 ncall = len(case['callers'])
